@@ -41,6 +41,9 @@ type Config struct {
 	MaxSteps      int           // scheduler step cap (default 200000)
 	ExploreTimers bool          // offer "advance the clock now" as an alternative
 	Trace         bool          // record the full transition trace
+	// Desc reverses the canonical order of the enabled set (descending logical ids): a second
+	// base schedule around which deviations are counted.
+	Desc bool
 	// FreeRun: library gates are pass-through and every enabled environment gate is released
 	// at once, so goroutines really run concurrently (used by the separate -race guard pass;
 	// not an exploration mode).
@@ -381,6 +384,14 @@ func (s *Sched) enabled() (en []trans, wakeAt int64) {
 	sort.Slice(parked, func(i, j int) bool {
 		if (parked[i] == s.last) != (parked[j] == s.last) {
 			return parked[i] == s.last
+		}
+		// event actors ("z...") stay last under either order
+		zi, zj := strings.HasPrefix(parked[i].ID, "z"), strings.HasPrefix(parked[j].ID, "z")
+		if zi != zj {
+			return zj
+		}
+		if s.cfg.Desc && !zi {
+			return parked[i].ID > parked[j].ID
 		}
 		return parked[i].ID < parked[j].ID
 	})
